@@ -777,7 +777,7 @@ def _dies(u, f, e, byval, locals_, ra, depth):
 # ------------------------------------------------------------------------------------------------
 # 11. API shape: functions that returned by value do not start returning references
 # ------------------------------------------------------------------------------------------------
-def api_returns(chk, units, baseline_path=None, baseline=None):
+def api_returns(chk, units, baseline_path=None, baseline=None, files=None):
     import json
     rule = "R-API.ret"
     chk.rule(rule, "a public library function that returned BY VALUE on the reference tree does not return a reference "
@@ -800,6 +800,8 @@ def api_returns(chk, units, baseline_path=None, baseline=None):
                 continue
             if "::internal::" in d["pqn"]:
                 continue   # implementation helpers are not the library's API (R-LIFE.ret still covers them)
+            if files is not None and not files(d.get("pfile", "")):
+                continue
             key = "%s|%d" % (d["pqn"], len(d["params"]))
             was = base.get(key)
             if was is None:
@@ -917,7 +919,7 @@ def _pkind(t):
     return "value"
 
 
-def api_params(chk, units, baseline=None):
+def api_params(chk, units, baseline=None, files=None):
     import json
     rule = "R-API.param"
     chk.rule(rule, "a parameter of a public library function that was a CONST reference on the reference tree is not a "
@@ -939,6 +941,8 @@ def api_params(chk, units, baseline=None):
             if not C.in_lib(d.get("pfile", "")) or "::internal::" in d.get("pqn", ""):
                 continue
             if d.get("access") not in (None, "public") or d.get("implicit") or d.get("lambdaop"):
+                continue
+            if files is not None and not files(d.get("pfile", "")):
                 continue
             key = "%s|%d" % (d["pqn"], len(d["params"]))
             was = base.get(key)
